@@ -34,9 +34,9 @@ Qed.
 
 Lemma flags_presented n w : flags (presented n w) = [].
 Proof.
-  assert (H : has_drift (presented n w) = false /\ has_stuck (presented n w) = false).
-  { unfold presented, has_drift, has_stuck. induction (seq 0 n) as [|x l IH]; simpl; [split; reflexivity | exact IH]. }
-  unfold flags. destruct H as [-> ->]. reflexivity.
+  assert (H : has_drift (presented n w) = false /\ has_stuck (presented n w) = false /\ has_panic (presented n w) = false).
+  { unfold presented, has_drift, has_stuck, has_panic. induction (seq 0 n) as [|x l IH]; simpl; [repeat split; reflexivity | exact IH]. }
+  unfold flags. destruct H as (-> & -> & ->). reflexivity.
 Qed.
 
 Lemma In_vassoc {A} v (a : A) l : NoDup (map fst l) -> In (v, a) l -> vassoc v l = Some a.
@@ -171,7 +171,7 @@ Qed.
 Lemma good_AddCb s m : inv s -> rel s m -> d_ok (dz s) AddCb = true -> step_good s m AddCb.
 Proof.
   intros I R H. unfold step_good. rewrite (mon_valid s m _ _ R H).
-  unfold step, step_gen. rewrite H. cbn [negb fst snd mon_op to_gone flags has_drift has_stuck existsb app].
+  unfold step, step_gen. rewrite H. cbn [negb fst snd mon_op to_gone flags has_drift has_stuck has_panic existsb app].
   assert (Hnil : d_arr (dz s) = []) by (simpl in H; destruct (d_arr (dz s)); [reflexivity | discriminate]).
   split; [reflexivity|]. split.
   - destruct I as [I1 I2 I3 I4 I5 I6]. constructor; cbn [dz pending timers tally parked]; auto.
@@ -228,8 +228,13 @@ Proof.
     + induction pd as [|w pd IH]; simpl; [reflexivity|]. rewrite (H w (or_introl eq_refl)). apply IH. intros w' Hw. apply H. right. exact Hw.
     + induction tl as [|x tl IH]; simpl; [reflexivity | exact IH].
     + destruct dt; reflexivity.
-  - clear H. assert (Hx : has_drift (probe_out pd tl dt) = false /\ has_stuck (probe_out pd tl dt) = false).
-    { unfold probe_out, has_drift, has_stuck. rewrite !existsb_app. split.
+  - clear H. assert (Hx : has_drift (probe_out pd tl dt) = false /\ has_stuck (probe_out pd tl dt) = false /\
+                              has_panic (probe_out pd tl dt) = false).
+    { unfold probe_out, has_drift, has_stuck, has_panic. rewrite !existsb_app. split; [|split].
+      - apply orb_false_iff. split; [|apply orb_false_iff; split].
+        + induction pd as [|w pd IH]; simpl; [reflexivity | exact IH].
+        + induction tl as [|x tl IH]; simpl; [reflexivity | exact IH].
+        + destruct dt; reflexivity.
       - apply orb_false_iff. split; [|apply orb_false_iff; split].
         + induction pd as [|w pd IH]; simpl; [reflexivity | exact IH].
         + induction tl as [|x tl IH]; simpl; [reflexivity | exact IH].
@@ -238,7 +243,7 @@ Proof.
         + induction pd as [|w pd IH]; simpl; [reflexivity | exact IH].
         + induction tl as [|x tl IH]; simpl; [reflexivity | exact IH].
         + destruct dt; reflexivity. }
-    unfold flags. destruct Hx as [-> ->]. reflexivity.
+    unfold flags. destruct Hx as (-> & -> & ->). reflexivity.
 Qed.
 
 Lemma good_Probe s m : inv s -> rel s m -> step_good s m Probe.
@@ -246,10 +251,11 @@ Proof.
   intros I R. unfold step_good. rewrite (mon_valid s m Probe _ R eq_refl).
   unfold step, step_gen. cbn [d_ok negb fst snd mon_op d_next].
   change (map (fun w0 => PendingEntry (fst w0) (snd w0)) (pending s) ++
-          map (fun x => TallyEntry (fst (fst x)) (snd (fst x)) (N.of_nat (snd x))) (tally s) ++
+          map (fun x => TallyEntry (fst (fst x)) (snd (fst x)) (N.of_nat (snd x)))
+            (filter (fun x => negb (gone (fst (fst x)) (dz s))) (tally s)) ++
           [match data s with Some w1 => DataIs (fst w1) (snd w1) | None => DataNone end])
-    with (probe_out (pending s) (tally s) (data s)).
-  assert (Hq := probe_quiet (dz s) (pending s) (tally s) (data s)).
+    with (probe_out (pending s) (filter (fun x => negb (gone (fst (fst x)) (dz s))) (tally s)) (data s)).
+  assert (Hq := probe_quiet (dz s) (pending s) (filter (fun x => negb (gone (fst (fst x)) (dz s))) (tally s)) (data s)).
   destruct Hq as [Hq1 Hq2].
   { intros w Hw. apply (kmem_In weqb weqb_eq) in Hw. apply (pending_live s m w I R Hw). }
   rewrite Hq1, Hq2. cbn [app].
@@ -319,7 +325,7 @@ Proof.
   assert (Hgd : forall q, gone q (d_next (dz s) (Expire p c)) = gone q (dz s)) by reflexivity.
   destruct (wassoc w (timers s)) as [t|] eqn:Et.
   2:{ (* no callback: the write was applied on arrival *)
-      cbn [is_run fst snd mon_op to_gone flags has_drift has_stuck existsb obs_peer orb app].
+      cbn [is_run fst snd mon_op to_gone flags has_drift has_stuck has_panic existsb obs_peer orb app].
       destruct W as (Hn & Hph & Ho & Hp). fold w. rewrite Ho. cbn [orb app].
       split; [reflexivity|]. split; [apply (inv_dz s (Expire p c) I)|].
       constructor; cbn [dz data parked with_d m_d m_data m_call m_w]; try reflexivity;
@@ -328,7 +334,7 @@ Proof.
       - intros w' r Hr. apply (r_arr _ _ R) in Hr. exact Hr. }
   destruct t.
   - (* running: it expires *)
-    cbn [is_run fst snd mon_op to_gone flags has_drift has_stuck existsb obs_peer orb app].
+    cbn [is_run fst snd mon_op to_gone flags has_drift has_stuck has_panic existsb obs_peer orb app].
     destruct W as (Hn & Hph & Ho & Hg & Hp & Hlt & Hy). fold w. rewrite Hph. cbn [is_prun app].
     split; [reflexivity|]. split.
     + destruct I as [I1 I2 I3 I4 I5 I6]. constructor; cbn [dz pending tally timers parked]; auto.
@@ -352,7 +358,7 @@ Proof.
     exfalso. assert (Hx := i_exp _ I w (or_introl Et)). congruence.
   - exfalso. assert (Hx := i_exp _ I w (or_intror Et)). congruence.
   - (* stopped *)
-    cbn [is_run fst snd mon_op to_gone flags has_drift has_stuck existsb obs_peer orb app].
+    cbn [is_run fst snd mon_op to_gone flags has_drift has_stuck has_panic existsb obs_peer orb app].
     destruct W as (Hn & Hph & Hp & Hog). fold w.
     change p with (fst w). rewrite Hgd, Hog. cbn [app].
     split; [reflexivity|]. split; [apply (inv_dz s (Expire p c) I)|].
@@ -371,12 +377,12 @@ Proof.
   destruct (arrived w (dz s)) eqn:Ha.
   2:{ (* never arrived: no timer, fresh record *)
       rewrite (not_arrived_timer s w I Ha). cbn [fst snd mon_op]. fold w.
-      rewrite (rget_fresh s m w R Ha). cbn [rfresh r_phase skipped_only to_gone flags has_drift has_stuck existsb obs_peer orb app].
+      rewrite (rget_fresh s m w R Ha). cbn [rfresh r_phase skipped_only to_gone flags has_drift has_stuck has_panic existsb obs_peer orb app].
       split; [reflexivity | split; assumption]. }
   pose proof (r_w _ _ R _ Ha) as W. unfold wrel, wrel_p in W.
   destruct (wassoc w (timers s)) as [[| | |]|] eqn:Et.
   - destruct W as (Hn & Hph & _). cbn [fst snd mon_op]. fold w. rewrite Hph.
-    cbn [skipped_only to_gone flags has_drift has_stuck existsb obs_peer orb app]. split; [reflexivity | split; assumption].
+    cbn [skipped_only to_gone flags has_drift has_stuck has_panic existsb obs_peer orb app]. split; [reflexivity | split; assumption].
   - (* the body runs *)
     destruct W as (Hn & Hph & Ho & Hp). cbn [repaired f_body andb].
     assert (Hexp : wmem w (d_exp (dz s)) = true) by (apply (i_exp _ I); left; exact Et).
@@ -384,7 +390,7 @@ Proof.
     + (* still pending: the error result *)
       assert (Hg : gone (fst w) (dz s) = false) by (destruct (gone (fst w) (dz s)); [discriminate | reflexivity]).
       rewrite weqb_refl. cbn [E_TIMEOUT andb]. rewrite N.eqb_refl. cbn [fst snd].
-      cbn [to_gone flags has_drift has_stuck existsb obs_peer orb]. change p with (fst w). rewrite Hg, Ho. cbn [app].
+      cbn [to_gone flags has_drift has_stuck has_panic existsb obs_peer orb]. change p with (fst w). rewrite Hg, Ho. cbn [app].
       split; [reflexivity|]. split.
       * destruct I as [I1 I2 I3 I4 I5 I6]. constructor; cbn [dz pending tally timers parked]; auto.
         -- intros w' Hw'. destruct (wid_dec w' w) as [->|Hne']; [rewrite wmem_wdel_same in Hw'; discriminate|].
@@ -406,7 +412,7 @@ Proof.
         -- apply (rarr_upd s m); auto.
     + (* cleaned up meanwhile: silent *)
       assert (Hg : gone (fst w) (dz s) = true) by (destruct (gone (fst w) (dz s)); [reflexivity | discriminate]).
-      cbn [fst snd to_gone flags has_drift has_stuck existsb app]. change p with (fst w). rewrite Hg, orb_true_r. cbn [app].
+      cbn [fst snd to_gone flags has_drift has_stuck has_panic existsb app]. change p with (fst w). rewrite Hg, orb_true_r. cbn [app].
       split; [reflexivity|]. split.
       * destruct I as [I1 I2 I3 I4 I5 I6]. constructor; cbn [dz pending tally timers parked]; auto.
         -- intros w' t Ht. destruct (wid_dec w' w) as [->|Hne']; [exact Ha|].
@@ -425,11 +431,11 @@ Proof.
               ** apply (r_w _ _ R). exact Hw'.
         -- apply (rarr_upd s m); auto.
   - destruct W as (Hn & Hph & _). cbn [fst snd mon_op]. fold w. rewrite Hph.
-    cbn [skipped_only to_gone flags has_drift has_stuck existsb obs_peer orb app]. split; [reflexivity | split; assumption].
+    cbn [skipped_only to_gone flags has_drift has_stuck has_panic existsb obs_peer orb app]. split; [reflexivity | split; assumption].
   - destruct W as (Hn & Hph & _). cbn [fst snd mon_op]. fold w. rewrite Hph.
-    cbn [skipped_only to_gone flags has_drift has_stuck existsb obs_peer orb app]. split; [reflexivity | split; assumption].
+    cbn [skipped_only to_gone flags has_drift has_stuck has_panic existsb obs_peer orb app]. split; [reflexivity | split; assumption].
   - destruct W as (Hn & Hph & _). cbn [fst snd mon_op]. fold w. rewrite Hph.
-    cbn [skipped_only to_gone flags has_drift has_stuck existsb obs_peer orb app]. split; [reflexivity | split; assumption].
+    cbn [skipped_only to_gone flags has_drift has_stuck has_panic existsb obs_peer orb app]. split; [reflexivity | split; assumption].
 Qed.
 
 (* ---- Arrive ---- *)
@@ -534,7 +540,7 @@ Proof.
   pose proof (r_w _ _ R _ Ha) as W. unfold wrel, wrel_p in W.
   destruct (wmem w (pending s)) eqn:Epd.
   - (* taken up: the goroutine stands at the hook *)
-    cbn [fst snd mon_op to_gone flags has_drift has_stuck existsb obs_peer orb app]. fold w.
+    cbn [fst snd mon_op to_gone flags has_drift has_stuck has_panic existsb obs_peer orb app]. fold w.
     split; [reflexivity|]. split.
     + destruct I as [I1 I2 I3 I4 I5 I6]. constructor; cbn [dz pending tally timers parked]; auto.
       * intros v a' Hin. apply in_app_or in Hin. destruct Hin as [Hin|Hin].
@@ -557,7 +563,7 @@ Proof.
            ++ apply (r_w _ _ R). exact Hw'.
       * apply (rarr_upd s m); auto.
   - (* too late (or cleaned up): the call returns *)
-    cbn [fst snd mon_op to_gone flags has_drift has_stuck existsb obs_peer orb app]. fold w.
+    cbn [fst snd mon_op to_gone flags has_drift has_stuck has_panic existsb obs_peer orb app]. fold w.
     assert (Hchk : r_out (rget w m) || gone p (d_next (dz s) (Lookup p c cb a)) || negb (is_prun (r_phase (rget w m))) = true).
     { rewrite Hgd. change p with (fst w). destruct W as [_ W].
       destruct (wassoc w (timers s)) as [[| | |]|].
@@ -585,7 +591,7 @@ Proof.
   intros I R H. unfold step_good. rewrite (mon_valid s m _ _ R H).
   unfold step, step_gen. rewrite H. cbn [negb repaired f_clean].
   rewrite left_of_zero.
-  cbn [fst snd mon_op to_gone flags has_drift has_stuck existsb obs_peer orb app]. rewrite !N.eqb_refl. cbn [andb app].
+  cbn [fst snd mon_op to_gone flags has_drift has_stuck has_panic existsb obs_peer orb app]. rewrite !N.eqb_refl. cbn [andb app].
   split; [reflexivity|]. split.
   - destruct I as [I1 I2 I3 I4 I5 I6]. constructor; cbn [dz pending tally timers parked].
     + intros w Hw. rewrite wmem_filter in Hw. apply andb_true_iff in Hw. destruct Hw as [Hw _]. exact (I1 _ Hw).
@@ -748,7 +754,7 @@ Proof.
   set (w := (p, c)).
   destruct (vassoc (w, cb) (parked s)) as [a|] eqn:Ev.
   2:{ unfold step, step_gen. cbn [d_ok negb d_next]. fold w. rewrite Ev. cbn [fst snd mon_op]. fold w.
-      rewrite (r_call _ _ R), Ev. cbn [skipped_only to_gone flags has_drift has_stuck existsb obs_peer orb app].
+      rewrite (r_call _ _ R), Ev. cbn [skipped_only to_gone flags has_drift has_stuck has_panic existsb obs_peer orb app].
       split; [reflexivity | split; assumption]. }
   rewrite (step_commit s p c cb a Ev). cbn zeta. fold w.
   assert (Evm : vassoc ((p, c), cb) (m_call m) = Some a) by (rewrite (r_call _ _ R); exact Ev).
@@ -785,7 +791,7 @@ Proof.
       - destruct W as (_ & _ & Hog). change p with (fst w). apply orb_true_iff in Hog. destruct Hog as [-> | ->]; [reflexivity|].
         rewrite andb_false_r. reflexivity.
       - destruct W as (_ & Ho & _). rewrite Ho. reflexivity. }
-    rewrite Hmust. cbn [to_gone flags has_drift has_stuck existsb obs_peer orb app].
+    rewrite Hmust. cbn [to_gone flags has_drift has_stuck has_panic existsb obs_peer orb app].
     split; [reflexivity|].
     apply (commit_rel s m w cb true (pending s) tl (timers s) (data s) nd (r_out r) I R Hin); auto.
     unfold wrel, wrel_p, m_upd. cbn [dz timers pending tally parked]. rewrite rget_upd_same.
@@ -825,14 +831,14 @@ Proof.
         rewrite Hun.
         assert (Hq : to_gone (dz s) (ack_result (ack_of w (dz s)) w ++ [Applied (fst w) (snd w); Returned]) = false).
         { destruct (ack_of w (dz s)); cbn [ack_result app to_gone existsb obs_peer]; rewrite ?Hg; reflexivity. }
-        rewrite Hq, flags_ack. cbn [flags has_drift has_stuck existsb app].
+        rewrite Hq, flags_ack. cbn [flags has_drift has_stuck has_panic existsb app].
         split; [reflexivity|].
         apply (commit_rel s m w cb true (wdel w (pending s)) (wremove w tl) (wset w TStop (timers s)) (Some w) nd true I R Hin); auto.
         rewrite wassoc_wset_same. intros [Hx|Hx]; discriminate.
       * (* denied *)
         cbn [fst snd]. rewrite (mon_commit m (dz s) p c cb false _ Evm). cbn zeta. fold w.
         change (Result p c E_DENIED) with (Result (fst w) (snd w) E_DENIED). rewrite ck_denied. cbn [fst snd]. fold r. fold nd. rewrite (r_data _ _ R).
-        rewrite Ho. cbn [app to_gone flags has_drift has_stuck existsb obs_peer orb]. rewrite Hg. cbn [app].
+        rewrite Ho. cbn [app to_gone flags has_drift has_stuck has_panic existsb obs_peer orb]. rewrite Hg. cbn [app].
         split; [reflexivity|].
         apply (commit_rel s m w cb false (wdel w (pending s)) (wremove w tl) (wset w TStop (timers s)) (data s) nd true I R Hin); auto.
         rewrite wassoc_wset_same. intros [Hx|Hx]; discriminate.
@@ -846,7 +852,7 @@ Proof.
         - destruct W as (_ & _ & Hog). apply orb_true_iff in Hog. destruct Hog as [-> | ->]; [reflexivity|].
           rewrite andb_false_r. reflexivity.
         - destruct W as (_ & Ho & _). rewrite Ho. reflexivity. }
-      rewrite Hmust. cbn [to_gone flags has_drift has_stuck existsb obs_peer orb app].
+      rewrite Hmust. cbn [to_gone flags has_drift has_stuck has_panic existsb obs_peer orb app].
       split; [reflexivity|].
       apply (commit_rel s m w cb a (pending s) (wremove w tl) (timers s) (data s) nd (r_out r) I R Hin); auto.
       unfold wrel, wrel_p, m_upd. cbn [dz timers pending tally parked]. rewrite rget_upd_same.
